@@ -85,7 +85,10 @@ func verifAV1OBU(name string, size int) []byte {
 	b := verifBytes(name, size)
 	if size > 0 {
 		t := verifU8(name+".type") & 0x0F // any type, those a receiver must ignore included
-		b[0] = t << 3                     // forbidden bit 0, no extension, no size field
+		b[0] = t << 3                     // forbidden bit 0, no size field
+		if size >= 2 && verifBool(name+".ext") {
+			b[0] |= 0x04 // extension header: the second byte carries the layer ids
+		}
 	}
 	return b
 }
